@@ -878,3 +878,54 @@ def run(ctx):
 
 # evidence: how the model is tied to the source on every run (as built, supersedes the value above)
 TIE = 'translator (padded length, bins, grid, scaling, inverse helper, dominant period -> Gen/FreqGrid; Props/C06Gen) + correspondence (Float twin of the O(N^2) DFT)'
+
+
+# ---- round 8: the array-level functions on an object whose OWN spectrum was generated with another transform length -----------------------------
+# (seeds C05-r8-1, C06-r8-1: reuse of the object's cached spectrum / grid whenever the number of bins int(N/2) agrees: N = 2k and 2k+1 collide)
+
+def _x4_foreign_cache(ctx, clause=None):
+    import eqsig
+    from eqsig.fns import frequency as fq
+    rng = ctx.rng
+
+    def same(r1, r2):
+        if r1[0] != r2[0]:
+            return False
+        if r1[0] != 'ok':
+            return r1[1] == r2[1]
+        return all(np.array_equal(np.asarray(x), np.asarray(y)) for x, y in zip(r1[1], r2[1]))
+    for it in range(24 if ctx.tier == 'quick' else 240):
+        n = rng.choice([6, 12, 40, 63, 64, 100, 257])
+        dt = rng.choice([0.01, 0.02, 0.125, 0.005])
+        a = gen.any_record(rng, n, dt)[1] + rng.choice([0.0, 0.75])
+        cls = eqsig.AccSignal if it % 2 else eqsig.Signal
+        N0 = 2 ** int(math.ceil(math.log2(n)))
+        own = rng.choice([{'n': N0 + 1}, {'n': N0 - 1}, {'n': 2 * N0 + 1}, {'p2_plus': 1}, {'n': n}, {'n': n + 1}, {'n': n - 1 if n > 3 else n + 3}])
+        calls = [('calc_fa_spectrum(sig)', lambda s: fq.calc_fa_spectrum(s)), ('generate_fa_spectrum(sig)', lambda s: fq.generate_fa_spectrum(s)),
+                 ('generate_fa_spectrum(sig, n_pad=False)', lambda s: fq.generate_fa_spectrum(s, n_pad=False)),
+                 ('calc_fa_spectrum(sig, n=N0)', lambda s: fq.calc_fa_spectrum(s, n=N0)), ('calc_fa_spectrum(sig, n=N0+1)', lambda s: fq.calc_fa_spectrum(s, n=N0 + 1)),
+                 ('calc_fa_spectrum(sig, p2_plus=1)', lambda s: fq.calc_fa_spectrum(s, p2_plus=1)), ('calc_fa_spectrum(sig, n=npts)', lambda s: fq.calc_fa_spectrum(s, n=n))]
+        s = cls(a, dt)
+        g = call_impl(lambda: s.gen_fa_spectrum(**own))
+        if g[0] != 'ok':
+            continue
+        _ = s.fa_spectrum, s.fa_frequencies
+        for nm, f in rng.sample(calls, 4):
+            got = call_impl(f, s)
+            want = call_impl(f, cls(a, dt))
+            ctx.hist('foreign cache/' + ('n' if 'n' in own else 'p2_plus'))
+            ctx.count_case(('fc', a.tobytes(), dt, str(own), nm), True)
+            ctx.oracle(clause or 'C06.e array-level spectrum of a signal object == that of a fresh object with the same record, whatever transform length the object '
+                       'used for its own spectrum before (bit for bit)', same(got, want),
+                       {'values': a, 'dt': dt, 'class': cls.__name__, 'own_spectrum_generated_with': own, 'call': nm},
+                       detail=None if same(got, want) else {'got': got[0], 'want': want[0]})
+    ctx.flush()
+
+
+_run_main_fc = run
+
+
+def run(ctx):
+    _run_main_fc(ctx)
+    _x4_foreign_cache(ctx)
+    ctx.flush()
